@@ -32,7 +32,8 @@ Clauses(e) ==
      (IF \E m \in solset : ~Valid(ot, I, lm, m) THEN {"ClauseValid"} ELSE {})
      \cup (IF \E i \in DOMAIN sols : RecCost(ot, I, c, sols[i]) # e.costs[i] THEN {"ClauseCostRecount"} ELSE {})
      \cup (IF \E i \in DOMAIN sols : e.costs[i] >= Inf THEN {"ClauseFiniteCost"} ELSE {})
-     \cup (IF e.op \in {"thl", "exh"} /\ \E i \in DOMAIN sols : e.costs[i] # mn THEN {"ClauseMin"} ELSE {})
+     \cup (IF e.op \in {"thl", "exh"} /\ \E i \in DOMAIN sols : e.costs[i] # mn \/ RecCost(ot, I, c, sols[i]) # mn
+           THEN {"ClauseMin"} ELSE {})
      \cup (IF e.op \in {"thl", "exh"} /\ e.policy = "ALL" /\ solset # opt THEN {"ClauseAllEqualsOpt"} ELSE {})
      \cup (IF e.op \in {"thl", "exh"} /\ e.policy = "ALL" /\ Len(sols) # Cardinality(solset) THEN {"ClauseAllDistinct"} ELSE {})
      \cup (IF e.op \in {"thl", "exh"} /\ e.policy = "ANY" /\ ~(Len(sols) = 1 /\ solset \subseteq opt)
